@@ -45,6 +45,18 @@ EXTRA = [
     "@subheader '''import ast\n'''\n@class P2\nstart: a=NAME NEWLINE { ast.Name(id=a.string) }\n",
     "@trailer '''\nPARSER = {class_name}\n'''\nstart: NAME (',' NAME)* NEWLINE\n",
     "@class Q\n@header '''import os\n'''\n@subheader '''X = 1\n'''\n@trailer '''Y = Q\n'''\n@whatever foo\nstart: 'a'+ NEWLINE\n",
+    # several left-recursive components and chains that enter a component at a member other than the one the traversal
+    # found first: the order in which the analysis walks its name sets must not show in the decorators
+    "start: x NEWLINE | e NEWLINE\nx: y 'a' | 'p'\ny: x 'b' | 'q'\ne: f 'c'\nf: g 'd'\ng: y 'e'\n",
+    "start: e NEWLINE | x NEWLINE\ne: f 'c' | g 'c'\nf: g 'd' | y 'd'\ng: y 'e' | x 'e'\n"
+    "x: y 'a' | z 'a' | 'p'\ny: z 'b' | 'q'\nz: x 'c' | 'r'\n",
+    "start: m NEWLINE | k NEWLINE\nk: l 'k'\nl: m 'l' | q 'l'\nm: n 'm' | 'u'\nn: m 'n' | p 'n' | 'v'\np: q 'p' | 'w'\nq: p 'q' | 't'\n",
+    # metas WITHOUT a value or with an empty value: a bare `@trailer` / `@header` means "emit none" (not "emit the default")
+    "@trailer\nbegin: NAME NEWLINE\n",
+    "@trailer ''\nbegin: NAME NEWLINE\n",
+    "@trailer\n@header\nstart: NAME NEWLINE\n",
+    "@header ''\n@subheader ''\nstart: NAME NEWLINE\n",
+    "@subheader\nstart: NAME NEWLINE\n",
     # an explicit action with text after UNREACHABLE, LOCATIONS inside a call
     "start: a=NAME { foo(a, UNREACHABLE) } | NUMBER { UNREACHABLE }\n",
     "start: a=NAME { mk(a, LOCATIONS) } | (NUMBER NUMBER) b=NAME { mk(LOCATIONS) }\n",
